@@ -47,7 +47,32 @@ func vC09Cat(L int) {
 		vAssert(ok, op.name+": a callback context lost the value attached at subscription")
 		vAssert(got == m, op.name+": a callback context carries a different subscription value")
 	}
+	if vPassesItems(op.name) {
+		// operators that forward (a selection of) the source's own items, stored or not: each
+		// delivered item still carries the per-item value the source attached to IT (the probe
+		// attaches the item's own payload as marker)
+		for _, e := range rec.evs {
+			if e.kind == vkNext && len(e.vals) == 1 {
+				it, ok := e.ctx.Value(vKeyItem).(int64)
+				vAssert(ok && it == e.vals[0], op.name+": an item was delivered with the context of another item (per-item value attached upstream)")
+			}
+		}
+	}
 	vReach("end")
+}
+
+// vPassesItems: entries whose output values are source items forwarded unchanged, each of which
+// must therefore come with its own context.
+func vPassesItems(name string) bool {
+	for _, p := range []string{"Filter", "Take", "Skip", "First", "Last", "Head", "Tail", "Distinct", "ElementAt", "Find", "TapOn", "DoOn", "Tap", "Do", "Serialize", "Timeout", "ThrowOnContextCancel", "OnErrorResumeNextWith_none", "Catch", "ThrowIfEmpty", "IgnoreElements", "Materialize_Dematerialize", "ContextWithValue_plain"} {
+		if len(name) >= len(p) && name[:len(p)] == p {
+			if name == "ElementAtOrDefault" || name == "Catch" {
+				return false // may deliver a value that is not a source item
+			}
+			return true
+		}
+	}
+	return false
 }
 
 func vhC09_cat_L2() { vC09Cat(2) }
